@@ -261,6 +261,8 @@ class TrackedValue(object):
             return TrackedDict(obj, attr, value)
         if isinstance(value, list):
             return TrackedList(obj, attr, value)
+        if isinstance(value, tuple):
+            return tuple(cls.make(obj, attr, item) for item in value)
         return value
     def _changed_(self):
         obj = self.obj_ref()
@@ -277,9 +279,10 @@ def tracked_method(func):
         if obj is not None:
             args = tuple(TrackedValue.make(obj, attr, arg) for arg in args)
             if kwargs: kwargs = {key: TrackedValue.make(obj, attr, value) for key, value in kwargs.items()}
-        result = func(self, *args, **kwargs)
-        self._changed_()
-        return result
+        try:
+            return func(self, *args, **kwargs)
+        finally:
+            self._changed_()
     return new_func
 
 class TrackedDict(TrackedValue, dict):
@@ -298,7 +301,9 @@ class TrackedDict(TrackedValue, dict):
     pop = tracked_method(dict.pop)
     popitem = tracked_method(dict.popitem)
     clear = tracked_method(dict.clear)
-    __ior__ = tracked_method(dict.__ior__)
+    def __ior__(self, other):
+        self.update(other)
+        return self
     def get_untracked(self):
         return {key: val.get_untracked() if isinstance(val, TrackedValue) else val
                 for key, val in self.items()}
@@ -309,9 +314,15 @@ class TrackedList(TrackedValue, list):
         list.__init__(self, (self.make(obj, attr, val) for val in value))
     def __reduce__(self):
         return list, (list(self),)
-    __setitem__ = tracked_method(list.__setitem__)
+    _setitem = tracked_method(list.__setitem__)
+    def __setitem__(self, index, value):
+        if isinstance(index, slice) and not isinstance(value, list): value = list(value)
+        self._setitem(index, value)
     __delitem__ = tracked_method(list.__delitem__)
-    extend = tracked_method(list.extend)
+    _extend = tracked_method(list.extend)
+    def extend(self, items):
+        if not isinstance(items, list): items = list(items)
+        self._extend(items)
     append = tracked_method(list.append)
     pop = tracked_method(list.pop)
     remove = tracked_method(list.remove)
@@ -319,7 +330,9 @@ class TrackedList(TrackedValue, list):
     reverse = tracked_method(list.reverse)
     sort = tracked_method(list.sort)
     clear = tracked_method(list.clear)
-    __iadd__ = tracked_method(list.__iadd__)
+    def __iadd__(self, items):
+        self.extend(items)
+        return self
     __imul__ = tracked_method(list.__imul__)
     def get_untracked(self):
         return [val.get_untracked() if isinstance(val, TrackedValue) else val for val in self]
